@@ -6,7 +6,7 @@
    needs; it is satisfiable (examples at the end) and the conditions are not vacuous (negative
    examples). *)
 From PNA Require Import Base Crc32 Name Codec Chunk Archive Entry Wf.
-From PNA Require Import BaseFacts NameFacts CodecFacts Crc32Facts ChunkFacts ArchiveFacts EntryFacts WfFacts.
+From PNA Require Import BaseFacts NameFacts CodecFacts Crc32Facts ChunkFacts ArchiveFacts PiecesFacts EntryFacts WfFacts.
 Require Import ZArith ZifyN ZifyNat ZifyBool.
 Open Scope N_scope.
 
@@ -203,18 +203,20 @@ Proof.
   rewrite E, K, P. reflexivity.
 Qed.
 
-Lemma sl_data ds : forall a, (encrypted enc = true -> is_some (k_phsf a) = true) ->
-  strict_loop enc (concat (map (data_chunks FDAT) ds)) a = SOk (upd_data (filter nonempty ds) a).
+Lemma sl_fdat_list ds : forall a, (encrypted enc = true -> is_some (k_phsf a) = true) ->
+  strict_loop enc (map (mk FDAT) ds) a = SOk (upd_data ds a).
 Proof.
   induction ds as [|d ds IH]; intros a P; [rewrite upd_data_nil; reflexivity|].
-  destruct d as [|b d]; cbn [map concat data_chunks filter nonempty app]; [apply IH; exact P|].
-  cbn [strict_loop]. unfold strict_step at 1. tysimp. cbv zeta. cbn [cdata mk].
+  cbn [map]. cbn [strict_loop]. unfold strict_step at 1. tysimp. cbv zeta. cbn [cdata mk].
   assert (encrypted enc && negb (is_some (k_phsf a)) = false) as ->.
   { destruct (encrypted enc); [rewrite P by reflexivity|]; reflexivity. }
   cbn [sbind]. rewrite IH by exact P. f_equal.
   unfold upd_data. cbn [k_info k_phsf k_extra k_data k_csize k_size k_c k_m k_a k_perm k_x].
   rewrite <- app_assoc, sum_len_cons, N.add_assoc. reflexivity.
 Qed.
+Lemma sl_data ds : forall a, (encrypted enc = true -> is_some (k_phsf a) = true) ->
+  strict_loop enc (concat (map (data_chunks FDAT) ds)) a = SOk (upd_data (cut_data ds) a).
+Proof. intros a P. rewrite data_chunks_cut. apply sl_fdat_list. exact P. Qed.
 
 Lemma time_strict t : t < 2 ^ 64 -> Nat.eqb (length (time_to_bytes t)) 8 = true /\ of_be (time_to_bytes t) = t.
 Proof.
@@ -275,7 +277,6 @@ Definition writable_normal (e : normal_entry) : Prop :=
   f_major h = 0 /\ f_minor h = 0 /\ valid_name (f_name h) = true /\ 6 + len (f_name h) < 2 ^ 32 /\
   phsf_ok (f_enc h) (n_phsf e) /\
   Forall extra_ok (n_extra e) /\
-  Forall (fun d => len d < 2 ^ 32) (n_data e) /\
   m_compressed m = sum_len (n_data e) /\
   data_len_ok (f_enc h) (f_mode h) (sum_len (n_data e)) = true /\
   opt_all (fun n => n < 2 ^ 128) (m_raw_size m) /\
@@ -312,7 +313,7 @@ Qed.
 Lemma strict_normal_ser e : writable_normal e ->
   strict_normal (mk FHED (fhed_to_bytes (n_hdr e))) (normal_body e) (mk FEND []) = SOk (normalize e).
 Proof.
-  intros (H1 & H2 & H3 & _ & H4 & H5 & _ & H6 & H7 & H8 & H9 & H10 & H11 & H12 & H13).
+  intros (H1 & H2 & H3 & _ & H4 & H5 & H6 & H7 & H8 & H9 & H10 & H11 & H12 & H13).
   assert (Forall wf_xattr (n_xattrs e)) as HX.
   { apply Forall_forall. intros x Hx. rewrite Forall_forall in H13. exact (proj1 (H13 x Hx)). }
   clear H13.
@@ -338,7 +339,7 @@ Proof.
   rewrite sl_xattrs by assumption; cbn [sbind];
   cbn [opt_upd upd_info upd_phsf upd_extra upd_data upd_size upd_c upd_m upd_a upd_perm upd_x
        k_info k_phsf k_extra k_data k_csize k_size k_c k_m k_a k_perm k_x app is_some is_nil negb];
-  rewrite N.add_0_l, sum_len_filter, H7;
+  rewrite N.add_0_l, sum_len_cut_data, H7;
   try (destruct H4 as (-> & _ & _)); try rewrite H4; cbn [andb negb];
   unfold normalize; cbn [n_hdr n_phsf n_extra n_data n_meta n_xattrs]; rewrite H6; reflexivity.
 Qed.
@@ -388,7 +389,7 @@ Qed.
 
 Lemma normal_body_chunks e : writable_normal e -> Forall entry_chunk (normal_body e).
 Proof.
-  intros (_ & _ & _ & _ & H4 & H5 & HD & _ & _ & H8 & H9 & H10 & H11 & H12 & H13).
+  intros (_ & _ & _ & _ & H4 & H5 & _ & _ & H8 & H9 & H10 & H11 & H12 & H13).
   unfold normal_body. cbv zeta. repeat (apply Forall_app; split).
   - apply Forall_forall. intros c Hc. rewrite Forall_forall in H5. destruct (H5 c Hc) as (S & C & _).
     apply extra_entry_chunk. split; assumption.
@@ -396,9 +397,9 @@ Proof.
     apply lit_entry_chunk; try reflexivity. apply fsiz_bytes_len.
   - apply Forall_opt_chunk. destruct (n_phsf e); cbn [opt_all phsf_ok] in *; [|exact I].
     apply lit_entry_chunk; try reflexivity. apply H4.
-  - induction HD as [|d ds Hd _ IH]; [constructor|]. cbn [map concat]. apply Forall_app. split; [|exact IH].
-    destruct d as [|b d]; cbn [data_chunks]; [constructor|]. constructor; [|constructor].
-    apply lit_entry_chunk; try reflexivity. exact Hd.
+  - rewrite data_chunks_cut. apply Forall_forall. intros c Hc. apply in_map_iff in Hc. destruct Hc as (p & <- & Hp).
+    pose proof (cutN_bounded CMAX (n_data e) CMAX_pos) as B. rewrite Forall_forall in B. destruct (B p Hp) as (_ & Lp).
+    apply lit_entry_chunk; try reflexivity. apply CMAX_lt. exact Lp.
   - apply Forall_opt_chunk. destruct (m_ctime (n_meta e)); cbn [opt_all]; [|exact I].
     apply lit_entry_chunk; reflexivity.
   - apply Forall_opt_chunk. destruct (m_mtime (n_meta e)); cbn [opt_all]; [|exact I].
